@@ -3,7 +3,7 @@ package main
 const trustedNote = "Trusted base: go/packages + go/types + go/ssa (x/tools v0.29.0) for the configuration analysed; the audit table audit.json (one named construct per exception, reason recorded); the argument in DESIGN.md that each clause is a necessary condition of the property. The check decides the named structural clauses on every path / table cell of the current source; it does not execute uGO programs and does not decide the behavioural statement as a whole."
 
 func init() {
-	for _, id := range []string{"C01", "C02", "C11", "C16", "C17", "C20"} {
+	for _, id := range []string{"C20"} {
 		notApplicable[id] = "static check for this property is not implemented in this revision of /verif (planned clauses: DESIGN.md section 3); no claim is made"
 	}
 	notApplicable["C03"] = "finally-exactly-once depends on the run-time history of a per-activation handler list addressed by static nesting depths; every structural rule considered either restates today's mechanism (and would fire on a correct redesign) or is a mechanism-presence check the existing tests already pin. No sound static argument in reach bounds the handler-list history (DESIGN.md section 4)."
@@ -67,6 +67,36 @@ func init() {
 		Note:      trustedNote,
 		Technique: "static analysis: extraction and cross-check of sibling type-switch tables on the typed AST; value-flow check of the registry lookup on SSA",
 		DesignRef: "DESIGN.md section 3, C20",
+	}
+	metas["C01"] = propMeta{
+		Text:      "Decides structural necessary conditions of 'the optimizer never changes what a script does': (fold-agree) every cell of the hand-written binary folding tables applies the Go operator the VM's BinaryOp applies for the same token and operand types (the optimizer's table against the operator table extracted from the run-time code); (falsy-agree) literal truthiness is IsFalsy of the paired object type in every arm; (lit-roundtrip) evaluator object->literal and compiler literal->object tables are inverse on all seven constant kinds; (fold-guard) integer / % and signed shifts in folding code are guarded; (bind-cover) every Ident-typed field of the parser's AST nodes and assignment targets reach the optimizer's shadow tracking; (symtab-current) the optimizer's symbol-table view is set from a parameter to which every compiler call site passes its current scope table; (eval-inherit) the evaluator re-inherits disabled/shadowed names before each Compile; (shadow-define) every symbol definer records builtin shadowing. Does not decide equivalence of the two bytecodes for all programs, OptimizerLimit interactions, or dead-branch removal beyond literal truthiness. 'other'.",
+		Note:      trustedNote,
+		Technique: "static analysis: sibling-table cross-check by partial evaluation (typed AST), dominating-guard analysis, value-flow and must-pass-through rules on SSA",
+		DesignRef: "DESIGN.md section 3, C01",
+	}
+	metas["C02"] = propMeta{
+		Text:      "Claims one sentence of the property only: 'a function that calls itself in tail position returns exactly what ordinary recursion would return'. Decides, for the frame-reusing fast path of the compiled-call routine (located by role: the store that resets ip without claiming a frame): it is dominated by callee == current frame's function; the opcode after the call is compared with OpReturn only; the frame's error handlers are cleared; the loop that resets non-parameter locals lies on every path to it. Evaluation order, scoping, closures, argument binding, destructuring and loop control - the rest of C02 - are statements about what each program computes and are NOT decided. 'other'.",
+		Note:      trustedNote,
+		Technique: "static analysis: dominance and path conditions of one VM fast path on SSA",
+		DesignRef: "DESIGN.md section 3, C02",
+	}
+	metas["C11"] = propMeta{
+		Text:      "Decides: (opcode-num) every version 1 opcode has the same number in today's VM; (width-diff) the set D of opcodes whose operand widths differ is computed from the two OpcodeOperands tables and both the converter's pre-scan and its rewriting arm list exactly D; (no-identity) operands read from the old stream are not forwarded unchanged to MakeInstruction while widening; (srcmap-all) the re-keying loop starts at offset 0 and keys by the new stream's length; (all-funcs) Main and every CompiledFunction constant are converted; (table-index) the converter's table indexing and slicing is bounds-guarded (shared with C18). Does not decide that a relocation, once present, is the right one, nor error line mapping values. 'other'.",
+		Note:      trustedNote,
+		Technique: "static analysis: cross-check of the two opcode tables against the converter's switch arms (typed AST), value-flow and bounds rules on SSA",
+		DesignRef: "DESIGN.md section 3, C11",
+	}
+	metas["C16"] = propMeta{
+		Text:      "Decides that positions are never dropped on the way from source to error report: (lit-pos) every literal node constructed outside the parser sets its position field; (emit-srcmap) the emitter records a source-map entry on every path; (dedup-srcmap) an identical earlier function constant is reused only after a successful source-map comparison; (line-table) every scanner function that advances the read offset records line starts; (throw-trace) throw appends the current position and one per unwound frame; the codec carries SourceMap and file tables (C04 field-cover). Does not decide that a recorded position is the right one, line arithmetic or the nearest-lower lookup. 'other'.",
+		Note:      trustedNote,
+		Technique: "static analysis: construction-site rule on the typed AST, must-store / dominance rules on SSA",
+		DesignRef: "DESIGN.md section 3, C16",
+	}
+	metas["C17"] = propMeta{
+		Text:      "Claims only the clause 'never emits a malformed document for values it cannot represent' plus validation-before-decoding: (enc-write) every encoder the type dispatch can return writes to the encode state or aborts on every feasible path; (float-finite) the float encoder excludes +Inf, -Inf and NaN (by IsInf/IsNaN or equivalent comparisons) before formatting; (unmarshal-valid) decoding calls are on the nil-error side of checkValid; (marshal-recover) the entry recovers exactly jsonError. Byte-for-byte agreement with encoding/json, escaping, number formatting, the acceptance set of Unmarshal, Indent/Compact are differential by nature and NOT decided. 'other'.",
+		Note:      trustedNote,
+		Technique: "static analysis: must-call on all feasible paths, dominating-guard facts, recover-barrier classification",
+		DesignRef: "DESIGN.md section 3, C17",
 	}
 	metas["C05"] = propMeta{
 		Text:      "Decides structural necessary conditions of 'Compile returns Bytecode or an error, never panics': (panic-reach) every explicit panic statement reachable in the VTA call graph from Compile / compileScript / Compiler.Compile / Eval.Run (VM excluded) is swallowed on every call path by a deferred recover that type-asserts its value type, or is a named audited unreachable site; (fold-guard) every integer / % and signed shift in the optimizer's folding code has a dominating zero/sign test; (cap-check) every success return after Compiler.Bytecode() is dominated by the NumLocals limit test made on that very bytecode; (op-table) for each of the opcodes the operand table, name table, MakeInstruction arm (bytes appended = sum of widths), VM dispatch arm and the width handlers of MakeInstruction/ReadOperands agree. Does not decide termination, Go stack exhaustion on deep nesting, implicit index/nil panics in general, or that emitted jump targets are in range. 'other': reachability + dominance + table agreement, not an exploration of inputs.",
